@@ -123,8 +123,12 @@ type Link struct {
 	blockSend bool
 	failSends int
 	failSkip  int
-	failErr   error
-	sendCost  time.Duration
+
+	failRecvs    int
+	failRecvSkip int
+	failRecvErr  error
+	failErr      error
+	sendCost     time.Duration
 	// jitter: PRNG-chosen durations of Send and Recv calls (see SetJitter)
 	jitRng *rand.Rand
 	jitP   float64
@@ -198,6 +202,15 @@ func (l *Link) FailNextSends(n int, err error) {
 func (l *Link) FailSendsAfter(skip, n int, err error) {
 	l.mu.Lock()
 	l.failSkip, l.failSends, l.failErr = skip, n, err
+	l.mu.Unlock()
+}
+
+// FailRecvsAfter lets skip further Recv calls pass and makes the n calls after
+// them fail with err (a transient read error: nothing is lost, the link keeps
+// working).
+func (l *Link) FailRecvsAfter(skip, n int, err error) {
+	l.mu.Lock()
+	l.failRecvSkip, l.failRecvs, l.failRecvErr = skip, n, err
 	l.mu.Unlock()
 }
 
@@ -363,6 +376,18 @@ func (l *Link) Send(ctx context.Context, b []byte) error {
 // Recv returns the next packet once its delivery time has come. It implements
 // gbn's recvBytesFunc and may be called from several goroutines.
 func (l *Link) Recv(ctx context.Context) ([]byte, error) {
+	l.mu.Lock()
+	if l.failRecvs > 0 {
+		if l.failRecvSkip > 0 {
+			l.failRecvSkip--
+		} else {
+			l.failRecvs--
+			err := l.failRecvErr
+			l.mu.Unlock()
+			return nil, err
+		}
+	}
+	l.mu.Unlock()
 	jittered := false
 	for {
 		l.mu.Lock()
